@@ -21,8 +21,8 @@ R == INSTANCE FramerCore WITH SOFc <- SOF, LeaderLen <- 3, ProbeLen <- 5,
 
 \* messages emitted while input is still possible (no end-of-input step)
 MessagesSoFar(in) ==
-  FoldLeft(LAMBDA a, k : IF a[1].pb = <<>> /\ a[2] = <<>> THEN a ELSE R!StepOn(a[1], a[2]),
-           << R!St0, in >>, [k \in 1..(2 * Len(in) + 6) |-> k])[1].out
+  FoldLeft(LAMBDA a, k : IF a[1].pb = <<>> /\ a[2] >= Len(in) THEN a ELSE R!StepIdx(a[1], in, a[2]),
+           << R!St0, 0 >>, [k \in 1..(2 * Len(in) + 6) |-> k])[1].out
 
 LastMin(n, s) == IF Len(s) <= n THEN s ELSE SubSeq(s, Len(s) - n + 1, Len(s))
 
@@ -33,8 +33,7 @@ VARIABLES l, bad, drift
 
 Clean(chars) == \A i \in 1..Len(chars) : chars[i] # 60 /\ chars[i] # 62
 
-Ok(e) ==
-    LET raws == [i \in 1..Len(MessagesSoFar(e.c2s)) |-> MessagesSoFar(e.c2s)[i].raw] IN
+Ok(e, raws) ==
     /\ e.alive /\ ~e.stalled
     /\ e.s_got = e.c2s /\ e.c_got = e.s2c                     \* relayed byte for byte, both ways
     /\ e.report_ok
@@ -42,13 +41,16 @@ Ok(e) ==
     /\ Clean(e.slot_client) /\ Clean(e.slot_server) /\ Clean(e.slot_messages)
 
 \* L1: at quiescence the report shows exactly the last 20
-Exact(e) == LET m == MessagesSoFar(e.c2s) IN e.report_msgs = LastMin(20, [i \in 1..Len(m) |-> m[i].raw])
+Exact(e, raws) == e.report_msgs = LastMin(20, raws)
 
 Init == l = 1 /\ bad = <<>> /\ drift = <<>>
 Next == /\ l <= Len(Trace)
         /\ l' = l + 1
-        /\ bad' = IF Ok(Trace[l]) \/ Len(bad) >= MaxBad THEN bad ELSE Append(bad, l)
-        /\ drift' = IF ~Trace[l].report_ok \/ Exact(Trace[l]) THEN drift ELSE Append(drift, l)
+        /\ LET e == Trace[l]
+               m == MessagesSoFar(e.c2s)
+               raws == FoldLeft(LAMBDA acc, x : Append(acc, x.raw), <<>>, m)   \* a concrete sequence (a function constructor is re-evaluated lazily)
+           IN /\ bad' = IF Ok(e, raws) \/ Len(bad) >= MaxBad THEN bad ELSE Append(bad, l)
+              /\ drift' = IF ~e.report_ok \/ Exact(e, raws) THEN drift ELSE Append(drift, l)
 Rec == Note(l, bad) /\ TLCSet(3, drift)
 VerdictC19 == PrintT(<<"BADK", "drift", TLCGet(3)>>) /\ Verdict
 =============================================================================
